@@ -82,6 +82,8 @@ def make_script(rng):
             ops.append(("state",))
             ops.append(("tick", fn))
             fn = (fn + rng.choice([1, 1, 1, 2])) % W.H
+        if rng.chance(1, 10):
+            ops.append(("ctrl", rng.below(n), W.rejected_cmd(rng)))      # refused / ignored: tuning, hopping and power stay as they are
     ops.append(("state",))
     return defs, ops
 
